@@ -14,7 +14,9 @@ CHECKS = {
         "identity is an SMT obligation (QF_NRA, z3 smt+nlsat portfolio) for all real inputs; counterexamples replayed in doubles",
         text="Bounded symbolic model checking of the real code: every feasible mask/branch combination of each wrapper (1-2 rows per "
         "call) is enumerated by solver feasibility queries and B=mu0*H+J, J=mu0*M, J=0 (non-magnets), J=polarization strictly inside / 0 "
-        "strictly outside are discharged as unsat obligations for ALL real observers, dimensions and excitations of that path. "
+        "strictly outside are discharged as unsat obligations for ALL real observers, dimensions and excitations of that path; for "
+        "CylinderSegment additionally per committed section (incl. sections written with angles below -180 or beyond 360 degrees) with a "
+        "geometric inside oracle in the observer's azimuth. "
         "Right level: the defects live on measure-zero pieces (edges, surfaces, batch couplings) that only a solver picks.",
         note="Assumes real-arithmetic semantics (rounding not modelled; counterexamples must reproduce in IEEE doubles to be reported); leaf "
         "kernels cel/ellipe/ellipk/cel_iter/cylinder-segment H kernel/triangle kernel are uninterpreted (identity is independent of them); "
@@ -212,7 +214,8 @@ CHECKS = {
         "SMT obligation per feasible path",
         text="Bounded symbolic model checking of the algebraically decidable anchors of C01, for all real inputs: Dipole == point-dipole "
         "formula, Sphere == 2/3 J inside / dipole outside, on-axis Circle == textbook formula, on-line Polyline points == 0, Cuboid B is "
-        "mirror-covariant under the x, y, z reflections on every feasible fold path (decides every entry of the sign tables). The straight "
+        "mirror-covariant under the x, y, z reflections on every feasible fold path (decides every entry of the sign tables), and the Cuboid "
+        "closed form is bypassed (B = H = 0) only on the documented special set, the edges of the body. The straight "
         "segment vs. the cross-product Biot-Savart form is attempted for six rational segments: proved on some paths, `unknown` on the others "
         "(listed); a wrong kernel is still found there by the concrete screening of candidate models and replay.",
         note="PARTLY APPLICABLE: the transcendental closed forms (Cuboid, Cylinder, CylinderSegment, Triangle family, off-axis Circle) vs. the "
